@@ -80,6 +80,32 @@ func (w *c7World) doClose(who string) {
 		w.firstCloseRet = w.closeRet[i]
 	}
 	w.r.Logf("%s: Close() returned %v", who, err)
+	// at the very instant a Close call returns (also a repeated or overlapping one) the tear-down it promises is complete
+	if !pan {
+		if alive := LibGoroutinesAlive(w.r.Sim, "gochannel.(*GoChannel).Subscribe", "message.(*messageTransformSubscriberDecorator).Subscribe"); len(alive) > 0 {
+			g := alive[0]
+			w.r.Fail("C07.R5", "a Close call returned while subscription tear-down goroutines were still running", "%s: %d goroutines, e.g. g%d created by %s, %s at %s", who, len(alive), g.ID, g.Created, g.State, g.Site)
+		}
+		for _, s := range w.subs {
+			if s.subscribed && (s.stopped || s.holding) && !s.closedSeen {
+				closed := false
+				for k := 0; k <= int(w.cfg.OutputChannelBuffer)+1; k++ {
+					_, ok, got := simrt.TryRecvRaw(s.ch)
+					if !got {
+						break
+					}
+					if !ok {
+						closed = true
+						s.closedSeen = true
+						break
+					}
+				}
+				if !closed {
+					w.r.Fail("C07.R3", "an output channel was still open at the instant a Close call returned", "%s: sub %d (stopped=%v holding=%v)", who, s.id, s.stopped, s.holding)
+				}
+			}
+		}
+	}
 }
 
 func (w *c7World) doPublish(who, topic string) *c7Pub {
